@@ -549,7 +549,11 @@ func checkStreamSymmetry(p *Prog, r *Report) {
 			})
 		}
 		clientSenderWrites := false
-		for _, b := range cr.Blocks {
+		var crBlocks []*ssa.BasicBlock
+		for _, fn := range p.ModGraph().unitFuncs(cr) {
+			crBlocks = append(crBlocks, fn.Blocks...)
+		}
+		for _, b := range crBlocks {
 			for _, in := range b.Instrs {
 				c, ok := in.(ssa.CallInstruction)
 				if !ok {
